@@ -8,7 +8,7 @@ from spec import rp66_eflr_ref as E
 from TotalDepth.RP66V1.core.File import LogicalData
 from TotalDepth.RP66V1.core.LogicalRecord import EFLR
 
-RCS = [E.USHORT, E.UNORM, E.UVARI, E.IDENT]
+RCS = [E.USHORT, E.UNORM, E.UVARI, E.IDENT, E.ULONG]
 
 
 def _val(rc, count, s):
@@ -16,6 +16,8 @@ def _val(rc, count, s):
         return [bytes([65 + (s + i) % 26]) for i in range(count)]
     if rc == E.UNORM:
         return [256 + (s + i) % 256 for i in range(count)]
+    if rc == E.ULONG:
+        return [[3000000000, 2 ** 31, 2 ** 32 - 1, 70000][(s + i) % 4] for i in range(count)]      # the upper half of the unsigned range too
     if rc == E.UVARI:
         return [128 + (s + i) % 128 for i in range(count)]
     return [(s + i) % 256 for i in range(count)]
@@ -88,18 +90,18 @@ def _table(named, inv0, tf0, tr0, tc0, inv1, tf1, tr1, tc1, nobj, k0, f0, r0, c0
 
 def eflr_table(named: bool, inv0: bool, tf0: int, tr0: int, inv1: bool, tf1: int, tr1: int, nobj: int, k0: int, f0: int, r0: int, k1: int, f1: int, r1: int) -> bool:
     """
-    pre: 0 <= tf0 <= 15 and tf1 in (0, 5, 10, 15) and tr0 in (1, 3) and tr1 == 2
+    pre: tf0 in (0, 1, 3, 5, 7, 10, 12, 15) and tf1 in (0, 5, 10, 15) and tr0 in (1, 4) and tr1 == 2
     pre: 0 <= nobj <= 2
-    pre: 0 <= k0 <= 2 and 0 <= k1 <= 2 and 0 <= f0 <= 15 and f1 in (0, 1, 5, 15) and r0 in (0, 3) and r1 == 1
+    pre: 0 <= k0 <= 2 and 0 <= k1 <= 2 and f0 in (0, 1, 3, 5, 7, 10, 12, 15) and f1 in (0, 1, 5, 15) and r0 in (0, 4) and r1 == 1
     pre: (k0 == 2 or (f0 == 0 and r0 == 0)) and (k1 == 2 or f1 == 0)
     pre: PART < 0 or (8 if inv0 else 0) + (4 if inv1 else 0) + k0 * 12 + k1 * 36 + (2 if named else 0) + (1 if nobj == 2 else 0) == PART
     post: _
     """
     named, inv0, inv1 = mark.pickb(named), mark.pickb(inv0), mark.pickb(inv1)
-    tf0, tf1, tr0, tr1 = mark.pick(tf0, 0, 15), mark.pick_from(tf1, (0, 5, 10, 15)), mark.pick_from(tr0, (1, 3)), 2
+    tf0, tf1, tr0, tr1 = mark.pick_from(tf0, (0, 1, 3, 5, 7, 10, 12, 15)), mark.pick_from(tf1, (0, 5, 10, 15)), mark.pick_from(tr0, (1, 4)), 2
     nobj, k0, k1 = mark.pick(nobj, 0, 2), mark.pick(k0, 0, 2), mark.pick(k1, 0, 2)
     # the characteristics of a component matter only when the component is an ATTRIB (k == 2)
-    f0, r0 = (mark.pick(f0, 0, 15), mark.pick_from(r0, (0, 3))) if k0 == 2 else (0, 0)
+    f0, r0 = (mark.pick_from(f0, (0, 1, 3, 5, 7, 10, 12, 15)), mark.pick_from(r0, (0, 4))) if k0 == 2 else (0, 0)
     f1, r1 = (mark.pick_from(f1, (0, 1, 5, 15)) if k1 == 2 else 0), 1
     with mark.untraced():
         return _table(named, inv0, tf0, tr0, 2, inv1, tf1, tr1, 2, nobj, k0, f0, r0, 2, k1, f1, r1, 1, 5)
@@ -107,12 +109,12 @@ def eflr_table(named: bool, inv0: bool, tf0: int, tr0: int, inv1: bool, tf1: int
 
 def eflr_template_q(named: bool, inv0: bool, tf0: int, tr0: int, inv1: bool, tf1: int) -> bool:
     """
-    pre: 0 <= tf0 <= 15 and 0 <= tr0 <= 3 and tf1 in (0, 5, 10, 15)
+    pre: 0 <= tf0 <= 15 and 0 <= tr0 <= 4 and tf1 in (0, 5, 10, 15)
     pre: PART < 0 or (4 if inv0 else 0) + (2 if inv1 else 0) + (1 if named else 0) == PART
     post: _
     """
     named, inv0, inv1 = mark.pickb(named), mark.pickb(inv0), mark.pickb(inv1)
-    tf0, tr0, tf1 = mark.pick(tf0, 0, 15), mark.pick(tr0, 0, 3), mark.pick_from(tf1, (0, 5, 10, 15))
+    tf0, tr0, tf1 = mark.pick(tf0, 0, 15), mark.pick(tr0, 0, 4), mark.pick_from(tf1, (0, 5, 10, 15))
     with mark.untraced():
         return _table(named, inv0, tf0, tr0, 2, inv1, tf1, 2, 2, 0, 0, 0, 0, 1, 0, 0, 0, 1, 5)
 
@@ -130,7 +132,7 @@ def eflr_objects_q(named: bool, tf0: int, tf1: int, nobj: int, k0: int, f0: int,
     nobj, k0, k1 = mark.pick(nobj, 1, 2), mark.pick(k0, 0, 2), mark.pick(k1, 0, 2)
     f0, f1 = mark.pick_from(f0, (0, 1, 5, 15)), mark.pick_from(f1, (0, 1, 15))
     with mark.untraced():
-        return _table(named, False, tf0, 2, 2, False, tf1, 2, 2, nobj, k0, f0, 1, 2, k1, f1, 3, 1, 5)
+        return _table(named, False, tf0, 2, 2, False, tf1, 2, 2, nobj, k0, f0, 4, 2, k1, f1, 3, 1, 5)
 
 
 def eflr_values_symbolic(s0: int, s1: int, s2: int, cnt: int) -> bool:
